@@ -26,12 +26,12 @@ def model(vals, k):
 class BinOp(Case):
     prop = 'C16'
     name = 'C16.binop'
-    bounds = ('a op b for op in + - ^ & | on Poly over Z/2^k, k in {1,2,3,8,32,64} and k=0 (integers, non-negative coefficients below 2^15; - excluded), dims (m,n) in 0..4^2 (quick) / 0..8^2 and every ring 1..16,24,32,48,63,64,65 (thorough), '
+    bounds = ('a op b for op in + - ^ & | on Poly over Z/2^k, k in {1,2,3,8,32,64} and k=0 (integers, non-negative coefficients below 2^15; - excluded), dims (m,n) in 0..4^2 (quick) / thorough: 0..20^2 for those rings and 0..8^2 for every ring k in 1..65, '
               'both operand orders, all coefficients symbolic: every coefficient, result dimension (= longer operand; empty op empty stays empty), operands unchanged')
 
     def shapes(self, tier):
-        D = 5 if tier == 'quick' else 9
-        for k in (RINGS + [0] if tier == 'quick' else list(range(1, 17)) + [24, 32, 48, 63, 64, 65, 0]):
+        for k in (RINGS + [0] if tier == 'quick' else list(range(1, 66)) + [0]):
+            D = 5 if tier == 'quick' else (21 if k in RINGS + [0] else 9)
             for m in range(D):
                 for n in range(D):
                     for op in ('add', 'sub', 'xor', 'and', 'or'):
@@ -63,11 +63,11 @@ class BinOp(Case):
 class Unary(Case):
     prop = 'C16'
     name = 'C16.unary'
-    bounds = 'unary minus (-a coefficient-wise, a + (-a) == 0 with the same ring), a<<n and a>>n for n in {0,1,k-1,k}, a//b (concatenation), for k in {1,2,3,8,32,64}, dims 0..4; coefficients symbolic'
+    bounds = 'unary minus (-a coefficient-wise, a + (-a) == 0 with the same ring), a<<n and a>>n for n in {0,1,k-1,k}, a//b (concatenation), for k in {1,2,3,8,32,64}, dims 0..4 (quick) / 8 more rings incl. 31,33,63,65 and dims 0..8 and 20 (thorough); coefficients symbolic'
 
     def shapes(self, tier):
-        for k in RINGS:
-            for m in range(0, 5):
+        for k in (RINGS if tier == 'quick' else sorted(set(RINGS + [4, 5, 7, 16, 31, 33, 63, 65]))):
+            for m in (range(0, 5) if tier == 'quick' else list(range(0, 9)) + [20]):
                 yield dict(op='neg', k=k, m=m)
                 yield dict(op='negsum', k=k, m=m)
                 for n in sorted(set([0, 1, k - 1, k])):
